@@ -330,9 +330,21 @@ func checkC11(c *Ctx) {
 				}
 				missing := []string{}
 				for _, need := range pol {
-					if !have[need] {
-						missing = append(missing, need)
+					if have[need] {
+						continue
 					}
+					// flags style: no wrapper around the handler, the dispatcher itself tests the
+					// session state before the dynamic call, depending on booleans set in the same case:
+					// decided per case, with the phis at the merge point resolved for this case
+					cutG, cntG := core.PassEdges(fn, guards[need])
+					for e := range core.PhiCutsFrom(fn, []*ssa.BasicBlock{pred}, cutG) {
+						cutG[e] = true
+					}
+					if cntG[0] > 0 && !core.ReachBlocks(fn, []*ssa.BasicBlock{pred}, cutG)[dc.call.Block()] {
+						have[need] = true
+						continue
+					}
+					missing = append(missing, need)
 				}
 				handlerOfKind[kind] = m
 				r.Check(shapeOK && len(missing) == 0, "C11.1-dispatch-guards", construct, c.P.Pos(ev.Pos()),
